@@ -9,7 +9,6 @@ import (
 	"errors"
 	"flag"
 	"fmt"
-	"runtime"
 	"strings"
 	"sync"
 	"testing"
@@ -77,7 +76,7 @@ func program(r *mc.Run, n int, useDeadline bool) func(x *mc.X) {
 			for i := range ms {
 				ms[i] = sentinel
 			}
-			g0 := runtime.NumGoroutine()
+			g0 := world.BubbleGoroutines()
 			start := time.Now()
 			var ctx context.Context
 			var cancel context.CancelFunc
@@ -171,7 +170,7 @@ func program(r *mc.Run, n int, useDeadline bool) func(x *mc.X) {
 					x.Failf("harness", "clock %d did not return", c.id)
 				}
 			}
-			if g := runtime.NumGoroutine(); g > g0 {
+			if g := world.BubbleGoroutines(); g > g0 {
 				x.Failf("goroutine-leak", "%d goroutines before the round, %d after every clock returned", g0, g)
 			}
 		})
